@@ -90,6 +90,10 @@ def _forecast_spec(route, mu):
         return list(WEIGHTS), k
     if route == 'scaled250':
         return [250.0 * w for w in WEIGHTS], mu / 250.0
+    if route == 'read-then-scaled':
+        # history on one forecast object: its total is read (and an N-test run) BEFORE it is scaled to mu
+        k = int(mu) if (float(mu).is_integer() and mu >= 1) else mu
+        return list(WEIGHTS), ['read-first', k]
     raise ValueError(route)
 
 
@@ -130,7 +134,7 @@ def cases(tier, seed):
     add(_catalog_cases([0, 1, 2, 3], 5, 4, 5))
     for ms in space.chunks(space.multisets([0, 1, 2, 3], 1, 3), 6):
         add([dict(kind='catalog_history', msets=[list(m) for m in ms], ns=[0, 1, 2], firsts=['number_test', 'iterate', 'get_event_counts'])])
-    add(_law_cases(MUS_Q, ['direct', 'scaled'], []))
+    add(_law_cases(MUS_Q, ['direct', 'scaled', 'read-then-scaled'], []))
     add(_law_cases(MUS_Q, ['direct', 'scaled'], FACTORS_Q, with_poisson=False))
     if tier == 'quick':
         # seed-selected additional complete block of the thorough space (all mu x all n for one extra variance law)
@@ -140,7 +144,7 @@ def cases(tier, seed):
     for extra in FACTORS_EXTRA + ['abs']:
         add(_law_cases(MUS_Q, ['direct'], [extra], with_poisson=False))
     add(_catalog_cases([0, 1, 2, 3, 4], 7, 5, 10))
-    add(_law_cases(MUS_T, ['direct', 'scaled', 'scaled250'], FACTORS_Q + FACTORS_EXTRA + ['abs']))
+    add(_law_cases(MUS_T, ['direct', 'scaled', 'scaled250', 'read-then-scaled'], FACTORS_Q + FACTORS_EXTRA + ['abs']))
     return out
 
 
@@ -179,6 +183,11 @@ def observed_catalog(n):
 
 def build_forecast(rates, scale):
     fc = fixtures.gridded_forecast(numpy.array(rates, dtype=float).reshape(len(ORIGINS), len(MAGS)), region(), MAGS)
+    if isinstance(scale, (list, tuple)):
+        from csep.core import poisson_evaluations
+        _ = fc.event_count, fc.sum()
+        poisson_evaluations.number_test(fc, observed_catalog(1))
+        scale = scale[1]
     if scale is not None:
         fc = fc.scale(scale)
     return fc
@@ -201,6 +210,10 @@ def synthetic_forecast(sizes):
 SITES = {'poisson': 'csep.core.poisson_evaluations.number_test',
          'nbd': 'csep.core.binomial_evaluations.negative_binomial_number_test',
          'catalog': 'csep.core.catalog_evaluations.number_test'}
+
+
+def _plain_scale(scale):
+    return scale[1] if isinstance(scale, (list, tuple)) else scale
 
 
 def call_law(kind, spec, n):
@@ -274,7 +287,7 @@ def run_law(case):
     counters = {}
     ns = [int(n) for n in case['ns']]
     cur = dict(rates=case['rates'], scale=case['scale'], variance=case['variance'])
-    total = ref_counts.exact_total(cur['rates'], cur['scale'])
+    total = ref_counts.exact_total(cur['rates'], _plain_scale(cur['scale']))
     law = ref_counts.poisson_law(total) if kind == 'poisson' else ref_counts.nbd_law(total, cur['variance'])
     if abs(law.raw_total - 1.0) > 1e-6:      # self-check of the reference (closed formula vs ratio walk)
         raise AssertionError(f'reference law {law.name} has total mass {law.raw_total!r}')
@@ -321,7 +334,7 @@ def run_law(case):
             if d1 < p1 - MONO_SLACK or d2 > p2 + MONO_SLACK:
                 failures.append(Fail(f'{site}|not-monotone-in-mean|any',
                                      f'(delta1, delta2) = ({p1!r}, {p2!r}) at the previous grid total '
-                                     f'{ref_counts.exact_total(case["prev"]["rates"], case["prev"]["scale"])!r} -> '
+                                     f'{ref_counts.exact_total(case["prev"]["rates"], _plain_scale(case["prev"]["scale"]))!r} -> '
                                      f'({d1!r}, {d2!r}) | {ctx} n_obs={n}', rep))
     return result(evals=evals, states=len(ns), transitions=transitions, nontrivial=nontriv, failures=failures,
                   digest=h.hexdigest(), counters=counters,
